@@ -115,7 +115,10 @@ SMALL = [sh for sh in SHAPES if sh["n_walk"] == 0 or sh["n"] == 2]
 contract(f"{NET}::Network.remove_peer", "remove_peer", vars=BASE, instances=SHAPES, requires=PRE,
          call="net.remove_peer(p1)", raises=[],
          ensures=["inv(net)", "no_lookup_returns(net, k1, addrs(p1))",
-                  "implies(n == 2, any(q is p2 for q in net.verified_peers) and net.get_verified_by_public_key_bin(k2) is p2)"],
+                  "implies(n == 2, any(q is p2 for q in net.verified_peers) and net.get_verified_by_public_key_bin(k2) is p2)",
+                  # removal forgets what the identity advertised - also for an identity that was only discovered, never verified
+                  # (n == 0): a later re-add must not resurrect services from before the removal
+                  "k1 not in net.services_per_peer", "k1 not in net.verified_by_public_key_bin"],
          bounded=BOUND, replay=KEYS, note="a removed peer is returned by no lookup (by key, by address, membership); other peers are untouched. " + BOUND)
 
 contract(f"{NET}::Network.remove_peer", "remove_then_add_again", vars=BASE, instances=[s for s in SHAPES if s["n"] >= 1 and s["n_walk"] == 0],
@@ -168,6 +171,18 @@ contract(f"{NET}::Network.add_verified_peer", "add_verified_peer.blacklisted-mid
          call="(net.blacklist_mids.append(p3.mid), net.add_verified_peer(p3))", raises=[],
          ensures=["inv(net)", "net.get_verified_by_public_key_bin(k3) is None", "all(key(q) != k3 for q in net.verified_peers)"],
          bounded=BOUND, replay=KEYS, note="blacklisted identities never become verified. " + BOUND)
+
+for _which in (0, 1):
+    contract(f"{NET}::Network.add_verified_peer", f"add_verified_peer.blacklisted-address[{_which}]",
+             vars={**BASE, "p4": EXPR("mk_peer(k3, UDPv4Address(ip3, port3), UDPv6Address(ip6, port6))")},
+             instances=[sh for sh in SMALL if sh["n_walk"] == 0 and not sh["two_addr"]],
+             requires=[*PRE, "k3 != k1", "k3 != k2"],
+             call=f"(net.blacklist.append(addrs(p4)[{_which}]), net.add_verified_peer(p4))", raises=[],
+             ensures=["inv(net)", "net.get_verified_by_public_key_bin(k3) is None", "all(key(q) != k3 for q in net.verified_peers)",
+                      f"addrs(p4)[{_which}] not in net._all_addresses"],
+             bounded=BOUND, replay=KEYS,
+             note="a peer with SEVERAL addresses of which one is blacklisted is not verified, and the blacklisted address does not "
+                  "become a known address. " + BOUND)
 
 contract(f"{NET}::Network.add_verified_peer", "add_verified_peer.known-key", vars=BASE,
          instances=[s for s in SHAPES if s["n"] >= 1], requires=[*PRE, "k3 == k1"],
